@@ -1,0 +1,43 @@
+//go:build verif
+
+package ds
+
+// Contracts for govc (see /verif/DESIGN.md). Comment-only file.
+// The contracts are written once for the generic type and checked for every
+// instantiation that occurs in the module.
+
+//@ func (*Stack[T]).Len()
+//@   props C05 C06 C07
+//@   nopanic
+//@   ensures s == nil ==> result == 0
+//@   ensures s != nil ==> result == len(s.vals)
+
+//@ func (*Stack[T]).Push(v)
+//@   props C05 C06 C07
+//@   requires s != nil
+//@   nopanic
+//@   modifies s.vals, s.vals[*]
+//@   ensures len(s.vals) == old(len(s.vals)) + 1
+//@   ensures s.vals[len(s.vals)-1] == v
+//@   ensures forall k :: 0 <= k && k < old(len(s.vals)) ==> s.vals[k] == old(s.vals[k])
+
+//@ func (*Stack[T]).Peek()
+//@   props C05 C06 C07
+//@   maypanic
+//@   ensures panics <==> (s == nil || len(s.vals) == 0)
+//@   ensures normal ==> result == s.vals[len(s.vals)-1]
+
+//@ func (*Stack[T]).Pop()
+//@   props C05 C06 C07
+//@   maypanic
+//@   modifies s.vals
+//@   ensures panics <==> (s == nil || old(len(s.vals)) == 0)
+//@   ensures panics ==> s != nil ==> s.vals == old(s.vals)
+//@   ensures normal ==> result == old(s.vals[len(s.vals)-1])
+//@   ensures normal ==> len(s.vals) == old(len(s.vals)) - 1 && s.vals.$arr == old(s.vals.$arr) && s.vals.$off == old(s.vals.$off)
+
+//@ func (*Stack[T]).Get(i)
+//@   props C05 C06 C07
+//@   maypanic
+//@   ensures panics <==> (s == nil || i < 0 || i >= len(s.vals))
+//@   ensures normal ==> result == s.vals[i]
